@@ -77,6 +77,10 @@ func (e *Engine) registerSyncExterns(reg regFn) {
 			e := x.e
 			k := st.name("mk", "Int", e.objKey(st, args[0]))
 			g := st.ghost("held")
+			if x.c != nil && x.c.NoLockLedger {
+				st.ghostWrite(g, k, "true")
+				return one(st, Val{})
+			}
 			x.obligeAt(st, fr, "lock-self-deadlock", pos, "", not(st.ghostRead(g, k)))
 			// blocking rule: either nothing is held, or the mutex is in an object allocated after function entry (unpublished)
 			fresh := "false"
@@ -106,6 +110,10 @@ func (e *Engine) registerSyncExterns(reg regFn) {
 			e := x.e
 			k := st.name("mk", "Int", e.objKey(st, args[0]))
 			g := st.ghost("held")
+			if x.c != nil && x.c.NoLockLedger {
+				st.ghostWrite(g, k, "false")
+				return one(st, Val{})
+			}
 			x.obligeAt(st, fr, "unlock-not-held", pos, "", st.ghostRead(g, k))
 			st.ghostWrite(g, k, "false")
 			st.setHeap(lockCount, "Int", "(- "+st.lockCountTerm()+" 1)")
